@@ -384,7 +384,19 @@ fn gen_rule(rng: &mut Rng, idx: usize) -> RuleAst {
         let from = *rng.pick(&["a", "b", "c"]);
         let to = *rng.pick(&["a", "b", "c", "end"]);
         (leaf("s", Op::Eq, V::Str(from.into())), vec![set("s", Rhs::Lit(V::Str(to.into())))])
-    } else if k < 96 {
+    } else if k < 94 {
+        // a counter chasing a MOVING limit, arithmetic on the left and a fact on the right
+        // (`n + 1 <= m`); other rules of the set move m
+        let (c, l) = *rng.pick(&[("n", "m"), ("m", "n"), ("n", "Cnt.v")]);
+        (
+            Cond::Leaf(Leaf { lhs: Lhs::Arith(Chain { first: Operand::Field(c.into()), rest: vec![('+', Operand::Int(*rng.pick(&[1i64, 1, 2])))] }), op: *rng.pick(&[Op::Le, Op::Lt]), rhs: Rhs::FieldRef(l.into()) }),
+            vec![inc(c)],
+        )
+    } else if k < 95 {
+        // raises a limit once a counter has reached a value
+        let (c, l) = *rng.pick(&[("n", "m"), ("m", "n"), ("n", "Cnt.v")]);
+        (leaf(c, Op::Ge, V::Int(*rng.pick(&[2i64, 3, 5]))), vec![set(l, Rhs::Lit(V::Int(*rng.pick(&[6i64, 9, 12]))))])
+    } else if k < 97 {
         // a rule whose action fails (unregistered custom action): the call returns Err
         let f = *rng.pick(&flags);
         (leaf(f, Op::Eq, V::Bool(rng.bool())), vec![Action::Call("Boom".into(), vec![])])
@@ -492,7 +504,7 @@ impl Check for C03 {
         "C03"
     }
     fn rule(&self) -> String {
-        "1-5 rules drawn from: counters under a limit above/below the bound, flag flippers (ping-pong), always-true rules, quiescing rules, string state machines, counters chasing each other; no-loop on 1/3 of the rules, activation groups on 1/4, 1/8 disabled, salience ties and negative / i32::MIN / i32::MAX saliences, rules whose action fails (the call returns Err); 1-3 calls on ONE engine and fact store (execute_with_callback / execute mixed), in half of the multi-call histories with remove_rule / add-the-rule-again edits of the knowledge base between two calls; max_cycles over 0..=64 (a fixed family of programs is run on EVERY max_cycles value: exhaustive over that grid), timeout None. Non-trivial: at least one firing and at least two passes observed; distinct by (rules, disabled, store, max_cycles).".into()
+        "1-5 rules drawn from: counters under a limit above/below the bound, flag flippers (ping-pong), always-true rules, quiescing rules, string state machines, counters chasing each other or a moving limit (arithmetic on the left of the comparison, a fact on the right), rules that raise a limit; no-loop on 1/3 of the rules, activation groups on 1/4, 1/8 disabled, salience ties and negative / i32::MIN / i32::MAX saliences, rules whose action fails (the call returns Err); 1-3 calls on ONE engine and fact store (execute_with_callback / execute mixed), in half of the multi-call histories with remove_rule / add-the-rule-again edits of the knowledge base between two calls; max_cycles over 0..=64 (a fixed family of programs is run on EVERY max_cycles value: exhaustive over that grid), timeout None. Non-trivial: at least one firing and at least two passes observed; distinct by (rules, disabled, store, max_cycles).".into()
     }
     fn assumptions(&self) -> Vec<String> {
         vec![
